@@ -115,6 +115,71 @@ def policy_ok(pin):
         and any(chr(c).isalpha() for c in pin)
 
 
+# Shapes of a WRONG echo reply (the device did not echo the APDU it was sent)
+ECHO_SHAPES = ("last", "first", "cla", "cmd", "hdr0", "otherop", "short", "long", "empty", "hdronly",
+               "payloadonly", "reversed")
+# Shapes of an IS_ONBOARD reply that says neither yes nor no
+ONB_SHAPES = ("short", "empty", "err")
+# Shapes of a negative answer to WIPE / SGX_ONBOARD (the device did NOT onboard)
+WIPE_SHAPES = ("refuse", "err", "odd", "short", "empty")
+# Shapes of a negative answer to UNLOCK / SGX_UNLOCK (the device stays locked)
+UNLOCK_FAIL_SHAPES = ("zero", "short", "empty", "err")
+# Non-canonical positive answers to the Ledger UNLOCK (documented as "non-zero")
+UNLOCK_TRUE_BYTES = (0x01, 0x02, 0xAA, 0xFF)
+# Shapes of a negative answer to CHANGE_PIN (Ledger: status word only) / SGX_CHANGE_PASSWORD
+NEWPIN_SHAPES = {"ledger": ("refuse", "err"), "sgx": ("refuse", "err", "odd", "short", "empty")}
+
+
+def wrong_echo(apdu, shape, platform):
+    """A reply to ECHO that is not the APDU sent, in one of ECHO_SHAPES."""
+    apdu = bytes(apdu)
+    hdr, pay = apdu[:2], apdu[2:]
+    if shape == "last":          # last byte flipped
+        return apdu[:-1] + bytes([apdu[-1] ^ 1])
+    if shape == "first":         # first payload byte
+        return hdr + bytes([pay[0] ^ 1]) + pay[1:] if pay else hdr + b"\x00"
+    if shape == "cla":           # CLA only
+        return bytes([0xE0]) + apdu[1:]
+    if shape == "cmd":           # command byte only
+        return bytes([apdu[0], apdu[1] ^ 0x01]) + pay
+    if shape == "hdr0":          # both header bytes zeroed
+        return b"\x00\x00" + pay
+    if shape == "otherop":       # the other platform's echo opcode
+        return bytes([apdu[0], 0xA4 if platform == "ledger" else 0x02]) + pay
+    if shape == "short":         # one byte short
+        return apdu[:-1]
+    if shape == "long":          # one byte long
+        return apdu + apdu[-1:]
+    if shape == "empty":
+        return b""
+    if shape == "hdronly":
+        return hdr
+    if shape == "payloadonly":
+        return pay
+    if shape == "reversed":      # payload reversed
+        return hdr + pay[::-1]
+    raise ValueError(shape)
+
+
+_BOUNDARY_SCALARS = []
+
+
+def boundary_scalars():
+    """Small private scalars whose public key has a leading zero byte in X (4 of them) or in Y (2):
+    the encodings where a minimal-length / unpadded serialisation goes wrong."""
+    if not _BOUNDARY_SCALARS:
+        xs, ys, k = [], [], 1
+        while len(xs) < 4 or len(ys) < 2:
+            k += 1
+            pub = pub_uncompressed(k)
+            if pub[1] == 0 and len(xs) < 4:
+                xs.append(k)
+            elif pub[33] == 0 and len(ys) < 2:
+                ys.append(k)
+        _BOUNDARY_SCALARS.extend(xs + ys)
+    return _BOUNDARY_SCALARS
+
+
 class AdminSimDevice(SimDevice):
     def __init__(self, platform="ledger", mode=MODE_BOOT, seed=1, with_keys=True):
         super().__init__(platform=platform, mode=mode, seed=seed)
@@ -126,13 +191,24 @@ class AdminSimDevice(SimDevice):
             self.key_scalars[pb] = k
             if with_keys:
                 self.keys[pb] = pub_uncompressed(k)
+        if with_keys and self.rnd.randint(0, 1):
+            # every other device holds, for one or two paths, a key at the encoding boundary
+            bs = boundary_scalars()
+            for _ in range(self.rnd.randint(1, 2)):
+                pb = self.rnd.choice(sorted(self.keys))
+                self.key_scalars[pb] = self.rnd.choice(bs)
+                self.keys[pb] = pub_uncompressed(self.key_scalars[pb])
         self.pinbuf = bytearray(MAX_PIN_LENGTH + 2)
         self.host_seed = bytearray(SEED_LEN)
         self.host_seed_set = set()
         self.received_seed = None           # what the device was finally onboarded with
         self.onboard_performed = False      # Ledger: locked out until re-plugged
         self.strict_policy = False          # production build: WIPE / CHANGE_PIN enforce the policy
-        self.wipe_answer = "ok"             # ok | refuse (0x69A0) | err (0x6A99) | bad (wrong byte)
+        self.wipe_answer = "ok"             # ok | one of WIPE_SHAPES
+        self.echo_shape = None              # None (echo_ok decides: "last") | one of ECHO_SHAPES
+        self.onb_shape = None               # None | one of ONB_SHAPES (IS_ONBOARD answers garbage)
+        self.unlock_fail_shape = "zero"     # how a refused unlock is reported (UNLOCK_FAIL_SHAPES)
+        self.unlock_true_byte = 0x01        # how a successful Ledger unlock is reported
         self.post_unlock_mode = MODE_SIGNER  # SGX: mode reported once unlocked
         self.accept_pins = None             # None: compare with self.pin | set of PINs that unlock
         self.pubkey_fail = None             # None | index of the GET_PUBLIC_KEY that fails
@@ -168,11 +244,16 @@ class AdminSimDevice(SimDevice):
         if len(apdu) < 2 or apdu[0] != CLA:
             return super().handle(apdu)
         cmd, data = apdu[1], apdu[2:]
+        if cmd == 0x06 and self.onb_shape is not None:
+            return {"short": (0x9000, bytes([CLA])), "empty": (0x9000, b""),
+                    "err": (0x6A99, b"")}[self.onb_shape]
         if self.platform == "sgx" and cmd in (0xA0, 0xA2, 0xA3, 0xA4, 0xA5):
             return self._sgx_system(cmd, data, apdu)
         if self.platform == "ledger" and self.mode == MODE_BOOT:
             if self.onboard_performed:
                 return 0x6D00, b""
+            if cmd == 0x02:
+                return 0x9000, self._echo(apdu)
             if cmd == 0x44:
                 return self._seed(data)
             if cmd == 0x41:
@@ -222,8 +303,12 @@ class AdminSimDevice(SimDevice):
         newpin = bytes(self.pinbuf)[1:].split(b"\x00")[0]
         if self.strict_policy and not policy_ok(newpin):
             return 0x69A0, b""
-        if self.wipe_answer == "bad":
+        if self.wipe_answer in ("odd", "bad"):
             return 0x9000, bytes([CLA, 3, 0])
+        if self.wipe_answer == "short":
+            return 0x9000, bytes([CLA])
+        if self.wipe_answer == "empty":
+            return 0x9000, b""
         self.received_seed = bytes(self.host_seed)
         self.pin = newpin
         self.onboarded = True
@@ -238,7 +323,7 @@ class AdminSimDevice(SimDevice):
     def _sgx_system(self, cmd, data, apdu):
         H = bytes([CLA, cmd])
         if cmd == 0xA4:
-            return 0x9000, (apdu if self.echo_ok else apdu[:-1] + bytes([apdu[-1] ^ 1]))
+            return 0x9000, self._echo(apdu)
         if cmd == 0xA0:
             if self.onboarded:
                 return 0x6BEF, b""
@@ -246,8 +331,14 @@ class AdminSimDevice(SimDevice):
                 return 0x6A87, b""
             if self.wipe_answer == "refuse":
                 return 0x9000, H + b"\x00"
-            if self.wipe_answer in ("err", "bad"):
+            if self.wipe_answer == "err":
                 return 0x6BF0, b""
+            if self.wipe_answer in ("odd", "bad"):
+                return 0x9000, H + b"\x02"
+            if self.wipe_answer == "short":
+                return 0x9000, H
+            if self.wipe_answer == "empty":
+                return 0x9000, b""
             self.received_seed = bytes(data[1:1 + SEED_LEN])
             self.pin = bytes(data[1 + SEED_LEN:])
             self.onboarded = True
@@ -280,6 +371,12 @@ class AdminSimDevice(SimDevice):
                 return 0x9000, H + b"\x00"
             if self.newpin_answer == "err":
                 return 0x6BF2, b""
+            if self.newpin_answer == "odd":
+                return 0x9000, H + b"\x02"
+            if self.newpin_answer == "short":
+                return 0x9000, H
+            if self.newpin_answer == "empty":
+                return 0x9000, b""
             self.pin = bytes(data[1:])
             self._journal_pin()
             return 0x9000, H + b"\x01"
@@ -290,9 +387,15 @@ class AdminSimDevice(SimDevice):
             self.unlocked = True
             if self.platform == "sgx" and self.mode == MODE_BOOT:
                 self.mode = self.post_unlock_mode
-        else:
-            self.retries = max(0, self.retries - 1)
-        return 0x9000, H + bytes([1 if ok else 0])
+            return 0x9000, H + bytes([self.unlock_true_byte if self.platform == "ledger" else 1])
+        self.retries = max(0, self.retries - 1)
+        return {"zero": (0x9000, H + b"\x00"), "short": (0x9000, H), "empty": (0x9000, b""),
+                "err": (0x6A99 if self.platform == "ledger" else 0x6BF3, b"")}[self.unlock_fail_shape]
+
+    def _echo(self, apdu):
+        if self.echo_ok and self.echo_shape is None:
+            return bytes(apdu)
+        return wrong_echo(apdu, self.echo_shape or "last", self.platform)
 
     # ------------------------------------------------------------------ Ledger dashboard (CLA 0xE0)
     def _dashboard(self, cmd, data):
